@@ -1,5 +1,4 @@
 //! C03 — fewer than the threshold of key holders can neither sign nor recover the key.
-use crate::c06::err_name;
 use crate::lab::*;
 use crate::util::*;
 use frost_core as fc;
@@ -46,7 +45,7 @@ pub fn run<C: Ciphersuite, L: Lab<C>>(lab: &mut L, p: &Params) {
         let sess = open_session::<C, L>(lab, &keys, &p.subset, msg.clone());
         for id in &coalition {
             let r = fc::round2::sign(&sess.package, &sess.nonces[id], &keys.0[id]);
-            lab.check(matches!(&r, Err(e) if err_name(e) == "IncorrectNumberOfCommitments"), "a signer refuses a signing package with fewer than t participants");
+            lab.check(r.is_err(), "a signer refuses a signing package with fewer than t participants");
         }
         let mut fake = BTreeMap::new();
         for (j, id) in coalition.iter().enumerate() {
@@ -54,11 +53,11 @@ pub fn run<C: Ciphersuite, L: Lab<C>>(lab: &mut L, p: &Params) {
         }
         for m in [fc::CheaterDetection::Disabled, fc::CheaterDetection::FirstCheater, fc::CheaterDetection::AllCheaters] {
             let r = fc::aggregate_custom(&sess.package, &fake, &keys.1, m);
-            lab.check(matches!(&r, Err(e) if err_name(e) == "IncorrectNumberOfShares"), "the coordinator refuses to aggregate fewer than t shares");
+            lab.check(r.is_err(), "the coordinator refuses to aggregate fewer than t shares");
         }
         let kps: Vec<KeyPackage<C>> = coalition.iter().map(|i| keys.0[i].clone()).collect();
         let r = fc::keys::reconstruct(&kps);
-        lab.check(matches!(&r, Err(e) if err_name(e) == "IncorrectNumberOfShares"), "reconstruct refuses fewer than t shares");
+        lab.check(r.is_err(), "reconstruct refuses fewer than t shares");
         lab.leave();
         return;
     }
